@@ -63,7 +63,7 @@ TTimeout ==
 TBegin ==
     /\ phase \in {"idle", "rest"} /\ IsOp("begin")
     /\ Check(t, l, "Clock", e.now = now)
-    /\ Begin(e.qname, e.search, e.life) /\ Adv
+    /\ Begin(e.qname, e.search, e.life, e.qtype, e.qclass) /\ Adv
 
 TAdvance == phase = "rest" /\ IsOp("advance") /\ Advance(e.d) /\ Adv
 
@@ -87,7 +87,8 @@ TQuery ==
     /\ Check(t, l, "Clock", e.now = now)
     /\ Check(t, l, IF last = "retrytcp" THEN "TruncatedRetry" ELSE "ServerChoice", e.srv = server)
     /\ Check(t, l, IF last = "retrytcp" THEN "TruncatedRetry" ELSE "TcpFlag", e.tcp = tcpAttempt)
-    /\ Check(t, l, "CandidateOrder", e.qn = qn /\ e.qtype = cfg.qtype)
+    /\ Check(t, l, "CandidateOrder", e.qn = qn)
+    /\ Check(t, l, "QuestionTypeClass", e.qtype = qtype /\ e.qclass = qclass)
     /\ Check(t, l, "TimeoutPositive", e.tmo >= 1)
     /\ Check(t, l, "TimeoutWithinLifetime", e.tmo <= life - Elapsed)
     /\ Check(t, l, "TimeoutWithinTimeout", e.tmo <= cfg.tmo)
@@ -110,15 +111,16 @@ TEnd ==
     /\ Check(t, l, "ResultClass", e.res = (IF result[1] = "answer" THEN "answer" ELSE result[2]))
     /\ result[1] = "answer" =>
           /\ Check(t, l, "AnswerQname", e.ans[2] = result[2])
+          /\ Check(t, l, "AnswerTypeClass", e.ans[4] = qtype /\ e.ans[5] = qclass)
           /\ Check(t, l, "CanonicalName", e.ans[3].cname = result[3].cname)
           /\ Check(t, l, "AnswerRRset", e.ans[3].rr = result[3].rr)
           /\ Check(t, l, "MinTTL", e.ans[3].ttl = result[3].ttl)
           /\ Check(t, l, "Expiration", e.ans[3].created = result[3].created)
     /\ result = <<"exc", "NXDOMAIN">> => Check(t, l, "CandidateOrder", e.nxq = allCands)
-    /\ Check(t, l, "CacheKeys", {<<c[1], c[2]>> : c \in ToSetOf(e.cache)} = FreshCache)
-    /\ Check(t, l, "CacheEntries", \A c \in ToSetOf(e.cache) : <<c[1], c[2]>> \in FreshCache =>
-                                        /\ c[3].ttl = cache[<<c[1], c[2]>>].ttl
-                                        /\ c[3] = cache[<<c[1], c[2]>>])
+    /\ Check(t, l, "CacheKeys", {<<c[1], c[2], c[3]>> : c \in ToSetOf(e.cache)} = FreshCache)
+    /\ Check(t, l, "CacheEntries", \A c \in ToSetOf(e.cache) : <<c[1], c[2], c[3]>> \in FreshCache =>
+                                        /\ c[4].ttl = cache[<<c[1], c[2], c[3]>>].ttl
+                                        /\ c[4] = cache[<<c[1], c[2], c[3]>>])
     /\ Finish /\ Adv
 
 TraceNext ==
